@@ -557,4 +557,9 @@ theorem pass_refines (R : Bool) (dp : List Plug) (fuel : Nat) (c : CS) (a0 : Act
 
 #print axioms pass_refines
 
+#print axioms innerLoop_trip
+#print axioms onRun_refines_k
+#print axioms pass_is_run
+#print axioms acts_mrun
+
 end Pm.Dev2
